@@ -87,6 +87,8 @@ class _SimRawWriter(io.RawIOBase):
     def write(self, b: Any) -> int:  # type: ignore[override]
         d = self.disk
         w = d.world
+        if d.dead:
+            raise SimCrash("process is dead: no write reaches the disk")
         w.seam("disk_write")
         d.write_calls += 1
         mv = memoryview(b).cast("B")
@@ -172,6 +174,7 @@ class SimDisk:
         self.write_faults: dict[int, str] = {}
         self.read_faults: dict[int, str] = {}
         self.buffer_size = io.DEFAULT_BUFFER_SIZE
+        self.dead = False  # set while a crash unwinds: buffered data is never flushed
         self.writes_completed: dict[str, int] = {}  # path -> number of successful closes
 
     def open(self, path: str, mode: str = "r", *a: Any, **kw: Any) -> Any:
@@ -247,6 +250,7 @@ class SimDisk:
             outcome[path] = mode
             self.world.faults.hit("disk_crash_" + mode)
         self.world.log.add("disk_crash", outcome)
+        self.dead = False  # the next process starts with a working disk
         return outcome
 
     def content(self, path: str) -> Optional[bytes]:
